@@ -65,6 +65,7 @@ type ReplyCase struct {
 	Builder string `json:"builder"`
 	Doc     Doc    `json:"doc"`
 	Reason  string `json:"reason"`
+	Reqres  string `json:"reqres"`
 }
 type TextCase struct {
 	Form string   `json:"form"`
@@ -690,6 +691,14 @@ func replayReply(c Case, seed int) []Event {
 	case "success", "successRes", "failure":
 		uri, _ := lime.ParseLimeURI("/ping")
 		req := &lime.RequestCommand{Command: lime.Command{Envelope: h, Method: lime.CommandMethod(rc.Method)}, URI: uri}
+		if rc.Reqres == "y" {
+			// the request has a resource of its own, of another media type than the one the reply will carry
+			if len(rc.Doc.Spec) > 0 && rc.Doc.Spec[0] == "json" {
+				req.SetResource(lime.TextDocument("asked with text"))
+			} else {
+				req.SetResource(&lime.JsonDocument{"asked": "with json"})
+			}
+		}
 		var r *lime.ResponseCommand
 		var wantRes interface{}
 		switch rc.Builder {
@@ -716,6 +725,8 @@ func replayReply(c Case, seed int) []Event {
 		}
 		if r.Type != nil && r.Resource != nil {
 			ev.Rtype = eq(absMT(*r.Type), absMT(r.Resource.MediaType()))
+		} else if r.Type != nil {
+			ev.Rtype = "n" // a type without a resource
 		}
 	default:
 		m := &lime.Message{Envelope: h}
